@@ -120,9 +120,18 @@ func genC15(t *simrt.Tape, tier string) Scenario {
 		// the target serves Cap requests (never more than the callers issue), then its effect
 		// returns (completion = close)
 		nu := 1 + t.Choose(maxUsers)
+		crowd := t.Bool(1, 3)
+		if crowd {
+			// more callers than the target's request channel buffers (5): some are blocked in the
+			// hand-over itself when the target completes
+			nu = 6 + t.Choose(4)
+		}
 		total := 0
 		for u := 0; u < nu; u++ {
 			n := 1 + t.Choose(maxOps)
+			if crowd {
+				n = 1 + t.Choose(2)
+			}
 			total += n
 			var ops []c15UserOp
 			for i := 0; i < n; i++ {
@@ -131,6 +140,9 @@ func genC15(t *simrt.Tape, tier string) Scenario {
 			sc.Users = append(sc.Users, ops)
 		}
 		sc.Cap = t.Choose(total + 1)
+		if crowd {
+			sc.Cap = t.Choose(4)
+		}
 	}
 	sc.CloseDelay = t.Choose(12)
 	if t.Bool(1, 4) {
